@@ -274,6 +274,22 @@ fn live(ctx: &mut Ctx, c: &crate::props::c11::Case, o: &mut Outcome) -> R<()> {
     Ok(())
 }
 
+/// Once the accept callback has allowed a request for namespace N (the live actor then holds the pair's slot as
+/// `Running{Accept}`), a failing run must report an error that carries the peer and N: that is all the live actor has to
+/// free the slot again ("the accepting side can always report its outcome").
+fn error_names_the_session(res: &Result<NamespaceId, iroh_docs::net::AcceptError>, allowed: Option<NamespaceId>, peer: iroh::PublicKey) -> Option<String> {
+    let (Err(e), Some(n)) = (res, allowed) else { return None };
+    if e.namespace() != Some(n) || e.peer() != Some(peer) {
+        return Some(format!(
+            "the request for {} was allowed, then the session failed with {e:?}: the error carries namespace {:?} and peer {:?}, so whoever accepted it cannot tell which session ended",
+            n.fmt_short(),
+            e.namespace().map(|x| x.fmt_short()),
+            e.peer().map(|x| x.fmt_short().to_string())
+        ));
+    }
+    None
+}
+
 fn to_entry(s: &Small) -> SignedEntry {
     sign(namespace(0), &ESpec { a: s.a, k: key(s.k), t: T0 + s.t as u64, c: s.c })
 }
@@ -409,17 +425,27 @@ fn vs_bob(ctx: &mut Ctx, local: &[Small], peer: &[Small], accept: u8, script: &[
         let (mut pr, mut pw) = tokio::io::split(peer_io);
         let outcome = if accept == 0 { AcceptOutcome::Allow } else { AcceptOutcome::Reject(reason(accept - 1)) };
         let hb = h.clone();
+        let allowed: Arc<std::sync::Mutex<Option<NamespaceId>>> = Default::default();
+        let allowed2 = allowed.clone();
         let bob = async move {
             let mut st = BobState::new(peer_pk);
             let out2 = outcome.clone();
-            let res = st.run(bw, br, hb, move |_ns, _p| std::future::ready(out2.clone())).await;
+            let res = st
+                .run(bw, br, hb, move |ns_, _p| {
+                    if matches!(out2, AcceptOutcome::Allow) {
+                        *allowed2.lock().unwrap() = Some(ns_);
+                    }
+                    std::future::ready(out2.clone())
+                })
+                .await;
             let nsid = st.namespace();
             // exactly what handle_connection does next
             let out = st.into_outcome();
-            (res.map_err(|e| format!("{e:?}")), nsid, out)
+            let contract = error_names_the_session(&res, *allowed.lock().unwrap(), peer_pk);
+            (res.map_err(|e| format!("{e:?}")), nsid, out, contract)
         };
         tokio::pin!(bob);
-        let mut bob_done: Option<(Result<NamespaceId, String>, Option<NamespaceId>, SyncOutcome)> = None;
+        let mut bob_done: Option<(Result<NamespaceId, String>, Option<NamespaceId>, SyncOutcome, Option<String>)> = None;
 
         let peer_entries: Vec<SignedEntry> = crate::common::dump(&mut pstore, ns)?;
         let mut replica = es(pstore.open_replica(&ns))?;
@@ -558,7 +584,10 @@ fn vs_bob(ctx: &mut Ctx, local: &[Small], peer: &[Small], accept: u8, script: &[
             Ok(r) => r?,
         }
         drop(replica);
-        let (res, _nsid, _out) = bob_done.ok_or("acceptor result missing")?;
+        let (res, _nsid, _out, contract) = bob_done.ok_or("acceptor result missing")?;
+        if let Some(v) = contract {
+            o.fail("C10/accept-error-does-not-name-the-session", v);
+        }
         o.class(if res.is_ok() { "acceptor/ok" } else { "acceptor/reported-error" });
         if started && deviated_after_start {
             o.nontrivial = true;
@@ -801,11 +830,20 @@ fn faulty(ctx: &mut Ctx, a: &[Small], b: &[Small], fault: Option<(u8, bool, u8)>
         let ha2 = ha.clone();
         let hb2 = hb.clone();
         let alice = async move { run_alice(&mut aw, &mut ar, &ha2, ns, pk_b).await.map_err(|e| format!("{e:?}")) };
+        let allowed: Arc<std::sync::Mutex<Option<NamespaceId>>> = Default::default();
+        let allowed2 = allowed.clone();
         let bob = async move {
             let mut st = BobState::new(pk_a);
-            let res = st.run(bw, br, hb2, |_n, _p| std::future::ready(AcceptOutcome::Allow)).await;
+            let res = st
+                .run(bw, br, hb2, move |n, _p| {
+                    *allowed2.lock().unwrap() = Some(n);
+                    std::future::ready(AcceptOutcome::Allow)
+                })
+                .await;
             let out = st.into_outcome();
-            (res.map_err(|e| format!("{e:?}")), out)
+            // once a request was allowed, a failing run must name the session it fails
+            let contract = error_names_the_session(&res, *allowed.lock().unwrap(), pk_a);
+            (res.map_err(|e| format!("{e:?}")), out, contract)
         };
         let mut injected_at: Option<u8> = None;
         let ha3 = ha.clone();
@@ -880,10 +918,13 @@ fn faulty(ctx: &mut Ctx, a: &[Small], b: &[Small], fault: Option<(u8, bool, u8)>
             count
         };
         let joined = tokio::time::timeout(WATCHDOG, async { tokio::join!(alice, bob, proxy) }).await;
-        let (ra, (rb, _bob_out_always_available), frames) = match joined {
+        let (ra, (rb, _bob_out_always_available, contract), frames) = match joined {
             Err(_) => return Err("WATCHDOG".to_string()),
             Ok(x) => x,
         };
+        if let Some(v) = contract {
+            o.fail("C10/accept-error-does-not-name-the-session", v);
+        }
         match fault {
             None => o.class("fault/none"),
             Some((_, _, 0)) => o.class("fault/close-replica"),
